@@ -72,15 +72,15 @@ func c02Rules(p *Prog) *RuleSet {
 			errNil("eat-sig-noerr", "that Verify returned no error", named("fdo/cose.Sign1.Verify"), verifyArgs),
 			errNil("nonce-read", "Session.ProveDeviceNonce returned no error", named("fdo.TO2SessionState.ProveDeviceNonce"), nil),
 			equal("nonce-eq", "decoded EAT nonce claim equals the nonce this session issued",
-				provAnd(decoded, lacksProv(nonce)), provAnd(hasProv(nonce), lacksProv("decoded:"))),
+				provAnd(hasProvX("decoded:"), lacksProv(nonce)), provAnd(hasProvX(nonce), lacksProv("decoded:"))),
 			equal("ueid-eq", "decoded EAT UEID claim equals RAND||Session.GUID",
-				provAnd(decoded, lacksProv(guid)), provAnd(hasProv(guid), lacksProv("decoded:"))),
+				provAnd(hasProvX("decoded:"), lacksProv(guid)), provAnd(hasProvX(guid), lacksProv("decoded:"))),
 			errNil("setparam-ok", "Session.SetParameter with the token's key-exchange parameter returned no error", named("fdo/kex.Session.SetParameter"),
 				func(m *Matcher, _ ssa.CallInstruction, args []ssa.Value) bool { return len(args) == 3 && decoded(m, args[1]) }),
 			errNil("xsession-read", "the session's key-exchange state was read without error", named("fdo.TO2SessionState.XSession"), nil),
 			// type-60 responder
 			equal("owner-key-eq", "the configured owner key equals the voucher's current owner key",
-				hasProv("call:crypto.Signer.Public"), provAnd(hasProv("call:fdo.Voucher.OwnerPublicKey"), lacksProv("call:crypto.Signer.Public"))),
+				hasProvX("call:crypto.Signer.Public"), provAnd(hasProvX("call:fdo.Voucher.OwnerPublicKey"), lacksProv("call:crypto.Signer.Public"))),
 			boolTrue("suite-valid", "Suite.Valid(device sig type, owner key) is true for the requested suite", named("fdo/kex.Suite.Valid"), 0,
 				func(m *Matcher, _ ssa.CallInstruction, args []ssa.Value) bool {
 					return len(args) == 3 && decoded(m, args[0]) && m.Prov(args[2]).Has("call:fdo.Voucher.OwnerPublicKey")
